@@ -199,8 +199,7 @@ def jNest : Nat → Nest Rat → String
   | 0, .arr _ => "[]"
   | n + 1, .arr l => jList (l.map (jNest n))
 
-def viaOf (via : String) (t : DM Rat) : Option (DM Rat) :=
-  if via = "tree" ∨ via = "json" then some t else if via = "xml" then some (xmlNorm t) else none
+def viaOf (via : String) (t : DM Rat) : Option (DM Rat) := encode via t
 
 def reply {α : Type} (via : String) (w : Option (DM Rat)) (rd : DM Rat → Option α) (pr : α → String) : String :=
   match w with
@@ -211,7 +210,7 @@ def reply {α : Type} (via : String) (w : Option (DM Rat)) (rd : DM Rat → Opti
     | some t' =>
       "{\"tree\":" ++ jDM t ++ ",\"via\":" ++ jDM t' ++ ",\"read\":" ++ (match rd t' with | none => "null" | some x => pr x) ++ "}"
 
-def eps : Rat := mkRat 1 1000000000
+def eps : Rat := setterAtol
 def rtolSym : Rat := mkRat 1 100000
 
 def facTabs (props : List (String × UnitSpec × Arr Rat)) (extra : List (Option String × Rat × Rat)) :
@@ -478,6 +477,19 @@ def handleC10 (toks : List String) : String :=
             | none => err "format"
             | some outs => jList outs
       | _ => err "format"
+  | ["fmt", fm, tg, ex] =>
+    -- the option handling of dump('system_model'): "-" = not given, "." = the empty string
+    let un (x : String) : String := if x = "." then "" else x
+    let format : Option String := if fm = "-" then none else some (un fm)
+    let tgt? : Option DumpTarget :=
+      if tg = "returned" then some .returned else if tg = "handle" then some .handle
+      else if tg = "path" then some (.path (un ex)) else none
+    match tgt? with
+    | none => err "format"
+    | some tgt =>
+      match dumpEncoding format tgt with
+      | none => "{\"enc\":null}"
+      | some e => "{\"enc\":" ++ jStr e ++ "}"
   | "nest" :: rk :: r =>
     match rk.toNat? with
     | none => err "format"
